@@ -14,7 +14,7 @@ class ProgGen:
                  p_await: float = 0.35, p_fail: float = 0.0, p_timeout: float = 0.0, p_burst: float = 0.0,
                  p_stuck: float = 0.08, p_factory: float = 0.15, p_opt: float = 0.1, p_delay_pub: float = 0.0, min_nodes: int = 1,
                  p_act_await: float = 0.2, p_overlap: float = 0.1,
-                 p_busy: float = 0.0) -> None:
+                 p_busy: float = 0.0, p_contend: float = 0.08) -> None:
         self.rng = rng
         self.max_nodes = max_nodes
         self.max_depth = max_depth
@@ -31,6 +31,7 @@ class ProgGen:
         self.p_act_await = p_act_await
         self.p_overlap = p_overlap
         self.p_busy = p_busy
+        self.p_contend = p_contend
         self.prog: list[dict[str, Any]] = []
         self.keys: list[tuple[int, str, int]] = []     # (ty, final name, publisher)
         self.used: set[tuple[int, str]] = set()
@@ -124,6 +125,8 @@ class ProgGen:
                             acts.append(a)
                     elif r < 0.9 - self.p_act_await:
                         acts.append({"a": "tick", "d": rng.choice(DELAYS)})
+                        if rng.random() < 0.12:
+                            acts[-1]["nested"] = True       # … followed by a start_component() of the component's own
                     elif r < 1.0 - self.p_act_await:
                         self.n_td += 1
                         acts.append({"a": "regTd", "id": self.n_td})
@@ -229,6 +232,23 @@ class ProgGen:
             self.leaf(st)
         self.leaf(acts)
 
+    def contend(self) -> None:
+        """Two or three components wait for the product of one slow asynchronous factory published under a name of
+        its own, while a resource of the same type exists under the default name: the first to look calls the
+        factory, the others wait for that generation and must get the same product."""
+        rng = self.rng
+        ty = rng.randrange(NT)
+        self.n_res += 2
+        key = f"special{self.n_res}"
+        self.used.update({(ty, key), (ty, "default")})
+        if any(k[0] == ty and k[1] == "default" for k in self.keys):
+            return
+        for _ in range(rng.choice([2, 2, 3])):
+            self.leaf([{"a": "await", "ty": ty, "name": key, "keep": True}])
+        self.leaf([{"a": "publish", "ty": ty, "name": "default", "v": self.n_res - 1}, {"a": "tick", "d": 1},
+                   {"a": "publishFactory", "ty": ty, "name": key, "fid": self.n_res, "slow": rng.choice([2, 3])}])
+        self.keys.append((ty, "default", len(self.prog) - 1))
+
     def overlap(self) -> None:
         """A sibling already waits for (T, n) when a component publishes a resource under (T2, n) and then a
         factory for both T and T2 under n, with nothing else published afterwards."""
@@ -275,6 +295,8 @@ class ProgGen:
             self.overlap()
         if rng.random() < self.p_busy:
             self.busy()
+        if rng.random() < self.p_contend:
+            self.contend()
         if rng.random() < self.p_fail:
             self.inject_fault()
         timeout = 10.0 ** 6
